@@ -124,6 +124,19 @@ theorem errored_refused_by_message (b : Built) (hc : Built.Constructed b) :
     messageAccepts b = !b.errored := by
   simp [messageAccepts, error_iff_errored_below b hc]
 
+/-- **Constructed ⇒ well-formed ⇒ round-trips.** Every tree the constructors build without an error
+    anywhere (over error-free leaves, e.g. `newInt_wf`) is a well-formed item: it is exactly the class
+    C01's theorems quantify over, so it encodes to the E5 bytes and decodes back to itself whenever its
+    nesting is within the decoder's limit. -/
+theorem constructed_wf (b : Built) (hc : Built.Constructed b) (he : b.errored = false)
+    (hl : b.leavesOK) (hne : b ≠ .empty) : WF b.value :=
+  GoSecs.Construct.constructed_wf b hc he hl hne
+
+theorem constructed_roundtrip (b : Built) (hc : Built.Constructed b) (he : b.errored = false)
+    (hl : b.leavesOK) (hne : b ≠ .empty) (hd : depth b.value ≤ maxListDepth) (rest : Bytes) :
+    decode (enc b.value ++ rest) = .ok (b.value, (enc b.value).length) :=
+  decode_enc b.value (GoSecs.Construct.constructed_wf b hc he hl hne) hd rest
+
 /-- A list is errored iff it is over the size cap or one of the supplied children is errored. -/
 theorem newList_errored_iff (kids : List Built) :
     (newList kids).errored = (decide (kids.length > maxByteSize) || Built.erroredL kids) := by
